@@ -62,6 +62,7 @@ func PositionTypes(k PositionKind) []PositionType {
 	}
 	x := reflect.StructField{Name: "X", Type: reflect.TypeOf(0), Tag: `json:"x"`}
 	y := reflect.StructField{Name: "Y", Type: reflect.TypeOf(""), Tag: `json:"y"`}
+	ign := reflect.StructField{Name: "Ign", Type: reflect.TypeOf([3]int16{}), Tag: `json:"-"`}
 	var out []PositionType
 	for _, v := range vs {
 		m := reflect.StructField{Name: "M", Type: v.t, Tag: reflect.StructTag(`json:"m` + v.opts + `"`)}
@@ -69,7 +70,9 @@ func PositionTypes(k PositionKind) []PositionType {
 			pos    string
 			fields []reflect.StructField
 			at     int
-		}{{"only", []reflect.StructField{m}, 0}, {"first-of-2", []reflect.StructField{m, x}, 0}, {"last-of-2", []reflect.StructField{x, m}, 1}, {"middle-of-3", []reflect.StructField{x, m, y}, 1}} {
+		}{{"only", []reflect.StructField{m}, 0}, {"first-of-2", []reflect.StructField{m, x}, 0}, {"last-of-2", []reflect.StructField{x, m}, 1}, {"middle-of-3", []reflect.StructField{x, m, y}, 1},
+			// the first encoded member does not sit at offset 0: an ignored member precedes it
+			{"first-after-ignored", []reflect.StructField{ign, m, x}, 1}, {"only-after-ignored", []reflect.StructField{ign, m}, 1}} {
 			if lay.pos == "only" && isPtrShaped(v.t) {
 				// a struct that is nothing but one pointer-shaped member is the catalogued odd shape
 				// "struct-ptr-shaped", not part of this table
@@ -90,6 +93,12 @@ func PositionValues(pt PositionType, k PositionKind, nonZero func(reflect.Value)
 		for i := 0; i < v.NumField(); i++ {
 			f := v.Field(i)
 			if i != pt.Member {
+				if f.Kind() == reflect.Array {
+					// the ignored member holds a recognisable pattern in every mode
+					for j := 0; j < f.Len(); j++ {
+						f.Index(j).SetInt(int64(30600 + j))
+					}
+				}
 				if mode > 0 {
 					switch f.Kind() {
 					case reflect.Int:
